@@ -24,6 +24,7 @@ type FuncResult struct {
 	EvalErrs []string
 	GenTime  float64
 	Facts    []string
+	Declared map[string]string
 	RunNames map[string]string
 }
 
@@ -99,7 +100,7 @@ func (e *Engine) verifyFunc(name string) (*FuncResult, error) {
 			}
 		}
 	}
-	res := &FuncResult{Name: name, Obls: r.obls, GenTime: time.Since(t0).Seconds(), Facts: r.facts.lines, RunNames: r.names}
+	res := &FuncResult{Name: name, Obls: r.obls, GenTime: time.Since(t0).Seconds(), Facts: r.facts.lines, RunNames: r.names, Declared: r.facts.declared}
 	res.Notes = sortedKeys(r.notes)
 	res.Assumes = sortedKeys(r.assumes)
 	res.Specs = sortedKeys(r.usedSpecs)
@@ -160,7 +161,48 @@ func solveAll(workDir string, frs []*FuncResult, timeoutS int, jobs int) {
 					// "is the known finding still there?": a quick look is enough, no answer means still there
 					res = runSolver("z3-new", file, 3)
 				} else {
-					res = solveFile(file, timeoutS, false)
+					res = runSolver("z3-new", file, 4)
+					if res.Status != "unsat" && res.Status != "sat" {
+						// second attempt: quantifier-free query built by instantiating the quantified
+						// facts against the query's own ground terms (engine-side E-matching)
+						first := res
+						var all []string
+						for _, l := range strings.Split(smtPreamble, "\n") {
+							if strings.HasPrefix(l, "(assert (forall") {
+								all = append(all, l)
+							}
+						}
+						all = append(all, j.fr.Facts[:o.NFacts]...)
+						gfile := strings.TrimSuffix(file, ".smt2") + ".ground.smt2"
+						for _, rounds := range []int{1, 2, 3, 5} {
+							lines, n := groundQuery(all, o.Pc, o.Goal, rounds)
+							if n == o.Instances && rounds > 1 {
+								break // nothing new to try
+							}
+							writeQueryQF(gfile, lines)
+							o.Instances = n
+							res = runSolver("z3-new", gfile, timeoutS)
+							if res.Status == "unsat" {
+								break
+							}
+							if res.Status != "sat" {
+								// the ground query is decidable in principle: a timeout here means it is too big
+								r2 := runSolver("cvc5", gfile, timeoutS/2)
+								if r2.Status == "unsat" {
+									res = r2
+									break
+								}
+							}
+						}
+						if res.Status == "unsat" {
+							res.Solver += "+ground-instances"
+							o.File = gfile
+						} else {
+							// last resort: the original quantified query through the portfolio
+							res = solveFile(file, timeoutS, false)
+						}
+						res.Time += first.Time
+					}
 				}
 				o.Result = &res
 				if res.Status != "unsat" && res.Status != "sat" && o.Kind != "vacuity" && !strings.HasSuffix(o.Name, "!finding") {
